@@ -22,6 +22,11 @@ def gen_graph(rng: random.Random, idx: int) -> dict:
         if not t["job"] and rng.random() < 0.3:
             t["copies"] = [int(rng.random() < 0.5) for _ in range(rng.choice([0, 1, 2, 2, 3]))]
             t["avail"] = int(rng.random() < 0.9)
+    for t in toks:                            # records / lists of files: available iff EVERY element is (partial loss = lost)
+        if not t["job"] and "copies" not in t and rng.random() < 0.2:
+            t["composite"] = rng.choice(["list", "object"])
+            t["items"] = [({"avail": int(rng.random() < 0.9), "copies": [int(rng.random() < 0.6) for _ in range(rng.choice([1, 1, 2]))]}
+                           if rng.random() < 0.8 else {"avail": int(rng.random() < 0.7)}) for _ in range(rng.choice([0, 1, 2, 3, 4]))]
     if rng.random() < 0.1 and n > 1:          # a lost token without previous tokens: build_graph must raise
         toks[0]["avail"] = 0
     k = rng.choice([1, 1, 2, 3])
@@ -29,11 +34,17 @@ def gen_graph(rng: random.Random, idx: int) -> dict:
     return {"idx": idx, "tokens": toks, "inputs": inputs, "ports": rng.choice([1, 2, 4])}
 
 
+def token_available(t: dict) -> bool:
+    """plain token: its flag; file token: recoverable and SOME copy exists; list / record: EVERY element available"""
+    if "items" in t:
+        return all(token_available(x) for x in t["items"])
+    return bool(t["avail"]) and ("copies" not in t or any(t["copies"]))
+
+
 def spec(case: dict):
     """the property's own oracle: least set containing the inputs and closed under `not stop => dependees`"""
     byid = {t["id"]: t for t in case["tokens"]}
-    stop = {i: (bool(t["avail"]) and ("copies" not in t or any(t["copies"]))) or bool(t.get("job") and t.get("recovering"))
-            for i, t in byid.items()}
+    stop = {i: token_available(t) or bool(t.get("job") and t.get("recovering")) for i, t in byid.items()}
     # the real code tests `is_recovering` first, then availability; both stop the search
     nodes, edges, todo = set(case["inputs"]), set(), list(case["inputs"])
     while todo:
@@ -143,7 +154,8 @@ class C18(Property):
     drivers = ["Drivers/C18.lean"]
     translators = []
     rule = ("(1) the REAL ProvenanceGraph.build_graph on random provenance relations (1..25 tokens, 0..3 dependees each, random availability, "
-            "file tokens with 0..3 primary data locations in the real DataManager of which a random subset was deleted, "
+            "file tokens with 0..3 primary data locations in the real DataManager of which a random subset was deleted, lists and records of "
+            "0..4 such tokens (partial losses), "
             "job tokens of recovering jobs, 1..3 input tokens, occasionally a lost token without dependees) stored in a real in-memory "
             "StreamFlow database; node set, edge set and the raising case are compared with the Lean model and with the closure "
             "specification computed independently; (2) real recovery runs (pipelines, scatter, diamond; soft and fail-stop failures with OUR "
@@ -180,6 +192,13 @@ class C18(Property):
                                    {"id": 2, "avail": 1, "deps": [0], "copies": [1, 0, 1]}, {"id": 3, "avail": 0, "deps": [1, 2]}], "inputs": [3], "ports": 2},
             {"idx": -5, "tokens": [{"id": 0, "avail": 1, "deps": []}, {"id": 1, "avail": 1, "deps": [0], "copies": [0, 0]},
                                    {"id": 2, "avail": 1, "deps": [1], "copies": [1, 1]}, {"id": 3, "avail": 0, "deps": [1, 2]}], "inputs": [3], "ports": 2},
+            # a record of three files of which ONE is lost: the record is lost, its producer must be selected
+            {"idx": -6, "tokens": [{"id": 0, "avail": 1, "deps": []},
+                                   {"id": 1, "avail": 1, "deps": [0], "composite": "object",
+                                    "items": [{"avail": 1, "copies": [1]}, {"avail": 1, "copies": [0]}, {"avail": 1, "copies": [1]}]},
+                                   {"id": 2, "avail": 1, "deps": [0], "composite": "list",
+                                    "items": [{"avail": 1, "copies": [0, 1]}, {"avail": 1, "copies": [1]}]},
+                                   {"id": 3, "avail": 0, "deps": [1, 2]}], "inputs": [3], "ports": 2},
             {"idx": -3, "tokens": [{"id": i, "avail": 1, "deps": ([i - 1] if i else [])} for i in range(12)], "inputs": [11, 10], "ports": 3},
         ]
         graphs = corpus + [gen_graph(rng, k) for k in range(n)]
